@@ -6,7 +6,8 @@ of quantities only)."""
 from pv.decl import cls, contract, lemma, predicate, specfn
 
 cls("pint.facets.plain.quantity:PlainQuantity",
-    fields={"_magnitude": "Num", "_units": "Ref[UnitsContainer]", "_dimensionality": "Opt[Ref[UnitsContainer]]"})
+    fields={"_magnitude": "Num", "_units": "Ref[UnitsContainer]", "_dimensionality": "Opt[Ref[UnitsContainer]]",
+            "_dimensionality_units": "Opt[Ref[UnitsContainer]]"})
 
 Q = "pint.facets.plain.quantity:PlainQuantity"
 specfn("q_mult", ["Ref[PlainQuantity]"], "Bool")   # the quantity has only multiplicative units
@@ -22,9 +23,10 @@ predicate("QWF", ["q: Ref[PlainQuantity]"], """
     and RegAll(q._REGISTRY) and FacOf(q._units, 1) > 0
     and AllMult(q._REGISTRY, q._units) and not truthy(q._REGISTRY._active_ctx)
     and q._REGISTRY == reg_of_class(q)
-    and implies(not is_none(q._dimensionality),
-                wf(some(q._dimensionality)) and forall[Str](lambda b: view(some(q._dimensionality))[b]
-                                                             == (0 if b == '[]' else DimOf(b, q._units))))
+    and implies(not is_none(q._dimensionality) and not is_none(q._dimensionality_units),
+                wf(some(q._dimensionality)) and wf(some(q._dimensionality_units)) and names_ok(some(q._dimensionality_units))
+                and forall[Str](lambda b: view(some(q._dimensionality))[b]
+                                          == (0 if b == '[]' else DimOf(b, some(q._dimensionality_units)))))
 """)
 predicate("SameDim", ["a: Ref[PlainQuantity]", "b: Ref[PlainQuantity]"],
           "forall[Str](lambda d: implies(d != '[]', DimOf(d, a._units) == DimOf(d, b._units)))")
@@ -87,7 +89,7 @@ contract(f"{Q}.dimensionality",
              "dim": "forall[Str](lambda b: view(result)[b] == (0 if b == '[]' else DimOf(b, self._units)))",
              "q": "QWF(self)",
          },
-         modifies=["self._dimensionality", "contents(self._REGISTRY._cache.dimensionality)"],
+         modifies=["self._dimensionality", "self._dimensionality_units", "contents(self._REGISTRY._cache.dimensionality)"],
          props=["C05", "C13", "C01"])
 
 _cmp_ens = lambda sym: {
@@ -103,7 +105,7 @@ contract(f"{Q}.compare",
          cases=[{"_name": n, "op": t, "_add_ensures": _cmp_ens(s)} for n, t, s in
                 (("lt", "OpLt", "<"), ("le", "OpLe", "<="), ("gt", "OpGt", ">"), ("ge", "OpGe", ">="))],
          allow_exc=("UndefinedUnitError", "OffsetUnitCalculusError"),
-         modifies=["self._dimensionality", "other._dimensionality",
+         modifies=["self._dimensionality", "other._dimensionality", "self._dimensionality_units", "other._dimensionality_units",
                    "contents(self._REGISTRY._cache.dimensionality)", "contents(self._REGISTRY._cache.root_units)",
                    "contents(self._REGISTRY._cache.conversion_factor)", "allof(UnitsContainer._hash)"],
          theories=("lin", "fac"),
@@ -149,7 +151,7 @@ contract(f"{Q}.__hash__",
                                   "BaseVals(keys(self._units._d), vals(view(self._units))))))",
          },
          modifies=["contents(self._REGISTRY._cache.dimensionality)", "contents(self._REGISTRY._cache.root_units)",
-                   "contents(self._REGISTRY._cache.conversion_factor)", "allof(UnitsContainer._hash)", "self._dimensionality"],
+                   "contents(self._REGISTRY._cache.conversion_factor)", "allof(UnitsContainer._hash)", "self._dimensionality", "self._dimensionality_units"],
          props=["C05"])
 
 # ---- equality of two multiplicative quantities: same dimensionality and same physical value
@@ -165,7 +167,7 @@ contract(f"{Q}.__eq__",
          ensures={"equal_iff_same_dimension_and_value": "result == (SameDim(self, other) and Phys(self) == Phys(other))",
                   "hashes": "HashesKept()"},
          allow_exc=("UndefinedUnitError", "OffsetUnitCalculusError", "KeyError", "TypeError", "ArithmeticError"),
-         modifies=["self._dimensionality", "other._dimensionality",
+         modifies=["self._dimensionality", "other._dimensionality", "self._dimensionality_units", "other._dimensionality_units",
                    "contents(self._REGISTRY._cache.dimensionality)", "contents(self._REGISTRY._cache.root_units)",
                    "contents(self._REGISTRY._cache.conversion_factor)", "allof(UnitsContainer._hash)"],
          theories=("lin", "fac", "facdiff"),
